@@ -163,6 +163,9 @@ def enumerate_faults(world, opts, facts):
         out.append({"class": "config", "kind": "unknown_header_key", "table": table})
         out.append({"class": "config", "kind": "empty_header_section", "table": table})
     out.append({"class": "config", "kind": "unknown_section"})
+    # unknown sections whose names are words the config format uses elsewhere (field and list names): still not sections
+    for word in ("notes", "exchanges", "holder", "unique_id coinbase", "assets", "timestamp", "crypto_fee"):
+        out.append({"class": "config", "kind": "unknown_section_named_like_field", "value": word})
     out.append({"class": "config", "kind": "line_before_section"})
     out.append({"class": "config", "kind": "json_format"})
     # the deprecated JSON format with its optional keys, with content its schema rejects, and with a non-object document
@@ -418,6 +421,8 @@ def apply_fault(world, opts, fault):
                 s[1] = [""]
         elif kind == "unknown_section":
             secs.append(["[bogus]", ["x = 1"]])
+        elif kind == "unknown_section_named_like_field":
+            secs.insert(len(fault["value"]) % (len(secs) + 1), ["[%s]" % fault["value"], ["x = 1", "y = Kraken"]])
         elif kind == "bad_method_year":
             s = sec("accounting_methods")
             s[1] = ["twenty = fifo"] + s[1]
